@@ -1,4 +1,190 @@
-import Cutplace.Model.Checks
+import Cutplace.Proofs.EngineLemmas
+import Cutplace.Proofs.FieldLemmas
+import Cutplace.Props.C07
+/-
+C20  User-defined field formats and checks are driven by the documented call protocol.
+The engine model records every call it makes into a column's value hook or into a check; the
+theorems describe that log for every table, configuration and plugin behaviour.
+-/
 namespace Cutplace.Props
-theorem C20_placeholder : True := trivial
+open Cutplace Cutplace.Spec
+
+variable {σ : Type}
+
+/-- Calls made for one validated row: nothing for a wrong item count; otherwise value hooks in
+column order up to and including the first rejected cell (only for cells whose guards pass), and —
+only if every cell was accepted — `check_row` for the checks in declaration order up to and
+including the first one that vetoes. -/
+theorem C20_row_log (cols : List Column) (checks : List (Check σ)) (sts : List σ) (row : Row) (line : Nat) :
+    (row.length ≠ cols.length → (validateRow cols checks sts row line).2.2 = []) ∧
+    (row.length = cols.length →
+      ∃ k, (validateRow cols checks sts row line).2.2 =
+          hookCallsFrom 0 (cols.zip row) ++
+            (if (cols.zip row).findIdx? rejects = none then (List.range' 0 k).map (fun j => Call.checkRow j row line) else [])
+        ∧ k ≤ checks.length) := by
+  constructor
+  · intro h; simp [validateRow, h]
+  · intro h
+    unfold validateRow
+    simp only [h, ne_eq, not_true_eq_false, if_false]
+    have hc := validateCells_culprit cols row 0
+    have hl := validateCells_log cols row 0
+    generalize validateCells cols row 0 = vc at hc hl
+    obtain ⟨culprit, log⟩ := vc
+    simp only at hc hl
+    subst hl
+    cases hf : (cols.zip row).findIdx? rejects with
+    | some j =>
+      rw [hf] at hc; simp only [Option.map_some] at hc; subst hc
+      exact ⟨0, by simp, by omega⟩
+    | none =>
+      rw [hf] at hc; simp only [Option.map_none] at hc; subst hc
+      obtain ⟨k, h1, h2, _⟩ := runChecks_log checks sts row line 0
+      exact ⟨k, by simp [h1], h2⟩
+
+/-- A value hook is never called beyond the first rejected cell of a row, and hooks are called in
+column order: the hook part of the log is `hookCallsFrom`, which stops after the first rejection. -/
+theorem C20_hooks_stop_at_culprit (i : Nat) (p : Column × Str) (ps : List (Column × Str))
+    (h : rejects p = true) : hookCallsFrom i (p :: ps) = hookCall i p.1 p.2 := by
+  simp [hookCallsFrom, h]
+
+/-- The argument of every value-hook call of a built-in-guarded field satisfies the documented
+preconditions (non-empty, allowed characters only, length inside the declaration, blanks stripped in
+fixed format). -/
+theorem C20_hook_precondition (f : Field) (v s : Str) (h : f.pre v = .inr s) :
+    s ≠ [] ∧ charsOk f v = true ∧ f.lengthOk v = true ∧ s = (if f.fixed then strip v else v) := by
+  unfold Field.pre at h
+  cases hfd : firstDisallowed f.allowed v with
+  | some i => simp [hfd] at h
+  | none =>
+    have hch := (firstDisallowed_none_iff f v).mp hfd
+    simp only [hfd] at h
+    generalize (if f.fixed = true then strip v else v) = t at h ⊢
+    by_cases h1 : (!f.allowEmpty && t.isEmpty) = true
+    · simp [h1] at h
+    · by_cases h2 : (!f.lengthOk v) = true
+      · simp [h2] at h
+      · by_cases h3 : t.isEmpty = true
+        · simp [h2, h3] at h; split at h <;> simp at h
+        · simp [h2, h3] at h
+          subst h
+          refine ⟨?_, hch, by simpa using h2, rfl⟩
+          intro ht; subst ht; simp at h3
+
+/-- Every check is reset exactly once, in declaration order, before anything else happens, and
+never again during the run. -/
+theorem C20_resets_first (cfg : ReaderCfg) (cols : List Column) (checks : List (Check σ)) (fault : Bool)
+    (rows : List Row) (before : List σ) :
+    ∃ rest, (readRows cfg cols checks fault rows before).log = resetCalls checks.length ++ rest ∧
+      ∀ c ∈ rest, c.isReset = false := by
+  refine ⟨(readLoop cfg cols checks fault 0 rows ⟨checks.map (·.reset), 0, 0⟩).log, rfl, ?_⟩
+  generalize (⟨checks.map (·.reset), 0, 0⟩ : RState σ) = st
+  generalize (0 : Nat) = n
+  induction rows generalizing n st with
+  | nil => simp [readLoop]
+  | cons row rest ih =>
+    rw [readLoop]
+    have hrow : ∀ (sts : List σ), ∀ c ∈ (validateRow cols checks sts row n).2.2, c.isReset = false := by
+      intro sts c hc
+      by_cases hlen : row.length = cols.length
+      · obtain ⟨k, hk, _⟩ := (C20_row_log cols checks sts row n).2 hlen
+        rw [hk] at hc
+        simp only [List.mem_append] at hc
+        rcases hc with hc | hc
+        · have := hookCallsFrom_isHook 0 _ c hc
+          cases c <;> simp_all [Call.isHook, Call.isReset]
+        · split at hc
+          · simp only [List.mem_map] at hc
+            obtain ⟨j, _, rfl⟩ := hc
+            rfl
+          · simp at hc
+      · rw [(C20_row_log cols checks sts row n).1 hlen] at hc
+        simp at hc
+    by_cases hh : n + 1 > cfg.header
+    · simp only [hh, if_true]
+      by_cases hl : inLimit cfg.limit (n + 1) = true
+      · simp only [hl, if_true]
+        have hr := hrow st.sts
+        generalize validateRow cols checks st.sts row n = vr at hr
+        obtain ⟨sts', err, log⟩ := vr
+        simp only [] at hr ⊢
+        cases err with
+        | none =>
+          intro c hc
+          simp only [List.mem_append] at hc
+          rcases hc with hc | hc
+          · exact hr c hc
+          · exact ih _ _ c hc
+        | some e =>
+          cases cfg.mode with
+          | raise => exact hr
+          | yield =>
+            intro c hc
+            simp only [List.mem_append] at hc
+            rcases hc with hc | hc
+            · exact hr c hc
+            · exact ih _ _ c hc
+          | «continue» =>
+            intro c hc
+            simp only [List.mem_append] at hc
+            rcases hc with hc | hc
+            · exact hr c hc
+            · exact ih _ _ c hc
+      · simp only [hl, Bool.false_eq_true, if_false]
+        exact ih _ _
+    · simp only [hh, if_false]
+      exact ih _ _
+
+/-- Rows in the header cause no calls at all (`C07_header_skip`), rows beyond the validation limit
+cause no calls at all (`C07_beyond_limit`). -/
+theorem C20_no_calls_outside_window (cfg : ReaderCfg) (cols : List Column) (checks : List (Check σ)) (fault : Bool)
+    (l n : Nat) (rows : List Row) (st : RState σ) (hl : cfg.limit = some l) (hn : l ≤ n) (hh : cfg.header ≤ n) :
+    (readLoop cfg cols checks fault n rows st).log = [] :=
+  (C07_beyond_limit cfg cols checks fault l n rows st hl hn hh).2.1
+
+/-- Closing asks every check for its end-of-data verdict once, in declaration order, up to the first
+failure; after that every check is cleaned up exactly once, in declaration order. -/
+theorem C20_close_protocol (checks : List (Check σ)) (sts : List σ) :
+    ∃ k, (closeValidator checks sts).2 =
+        (List.range' 0 k).map Call.atEnd ++ (List.range checks.length).map Call.cleanup ∧
+      k ≤ checks.length ∧
+      (match (closeValidator checks sts).1 with
+       | some j => j + 1 = k
+       | none => k = min checks.length sts.length) := by
+  obtain ⟨k, h1, h2, h3⟩ := atEndLoop_log checks sts 0
+  refine ⟨k, by simp [closeValidator, h1], h2, ?_⟩
+  simp only [closeValidator]
+  cases hr : (atEndLoop checks sts 0).1 with
+  | none => simp [hr] at h3 ⊢; exact h3
+  | some j => simp [hr] at h3 ⊢; omega
+
+/-- class-name resolution: the last dotted component of the declared type plus the suffix -/
+def lastDotted (s : Str) : Str :=
+  (s.reverse.takeWhile (· != '.')).reverse
+
+def resolveClass (registered : List Str) (qualifier suffix : Str) : Option Str :=
+  let n := lastDotted qualifier ++ suffix
+  if registered.contains n then some n else none
+
+theorem C20_resolution (registered : List Str) (qualifier suffix n : Str) :
+    resolveClass registered qualifier suffix = some n ↔ n = lastDotted qualifier ++ suffix ∧ n ∈ registered := by
+  unfold resolveClass
+  simp only []
+  split
+  · rename_i h
+    simp only [Option.some.injEq]
+    constructor
+    · intro e; subst e; exact ⟨rfl, by simpa using h⟩
+    · intro e; exact e.1.symm
+  · rename_i h
+    simp only [reduceCtorEq, false_iff, not_and]
+    intro e; subst e; simpa using h
+
+/-- non-vacuity: three columns, the second cell rejected: hooks for columns 0 and 1 only, no check called -/
+example :
+    let col : Column := ⟨fun v => .inr v, fun v => v != ['x']⟩
+    let chk : Check Unit := ⟨(), fun s _ _ => (s, none), fun _ => true⟩
+    (validateRow [col, col, col] [chk] [()] [['a'], ['x'], ['b']] 4).2.2
+      = [.hook 0 ['a'], .hook 1 ['x']] := by decide
+
 end Cutplace.Props
